@@ -156,3 +156,10 @@ func stallActive(r *Result, from, to int) bool {
 	}
 	return len(on) > 0
 }
+
+func originOf(s *MSess) string {
+	if s == nil {
+		return "unknown"
+	}
+	return s.Origin
+}
